@@ -142,11 +142,29 @@ func serve(stream []byte, frag bool, pokeCodes []byte, r *ev.Run) *result {
 	c1.(*net.UnixConn).CloseWrite()
 	select {
 	case <-done:
-	case <-time.After(60 * time.Second):
-		res.hung = true
+	case <-time.After(ev.OpTimeout()):
+		// ServeAgent did not return although the peer finished writing. Release a reader
+		// that may be parked on a wait (poke every supported code), then give up on it.
+		hung := true
 		c1.Close()
 		c2.Close()
-		<-done
+		for code := 0; code < 40; code++ {
+			p1, p2, perr := wire.SocketPair()
+			if perr != nil {
+				break
+			}
+			go func() { defer p2.Close(); defer func() { recover() }(); yubiagent.ServeAgent(srv, p2) }()
+			p1.Write(wire.Frame([]byte{byte(code)}))
+			p1.SetReadDeadline(time.Now().Add(100 * time.Millisecond))
+			wire.ReadFrame(p1)
+			p1.Close()
+		}
+		select {
+		case <-done:
+		case <-time.After(5 * time.Second):
+		}
+		close(stopPoke)
+		return &result{hung: hung}
 	}
 	close(stopPoke)
 	pw.Wait()
@@ -247,7 +265,7 @@ func judge(r *ev.Run, c *ev.Case, pcs []piece, frag bool, res *result) {
 		return
 	}
 	if res.hung {
-		r.Violation(c, "serving-never-ends", "ServeAgent did not return within 60 s after the peer finished writing", rec)
+		r.Violation(c, "serving-never-ends", fmt.Sprintf("ServeAgent did not return within %s after the peer finished writing (a reader parked on a wait nobody can satisfy, or stuck in a read)", ev.OpTimeout()), rec)
 		return
 	}
 	if len(res.tail) != 0 {
@@ -368,6 +386,9 @@ func main() {
 			go func() {
 				defer wg.Done()
 				for j := range jobs {
+					if r.NumViolations() > 12 {
+						continue // enough witnesses; drain the queue
+					}
 					var stream []byte
 					for _, p := range j.pcs {
 						stream = append(stream, p.raw...)
